@@ -545,6 +545,8 @@ def np_vstack(I, a, kw, node):
 
 def np_column_stack(I, a, kw, node):
     parts = a[0]
+    if isinstance(parts, SArrSeq):
+        return column_stack_seq(I, parts, node)
     if isinstance(parts, SArrList):
         p = parts
         return SArr(2, p.rows, p.len, lambda i, j: p.at(j, i), "num", True)
@@ -660,3 +662,93 @@ def external_objects():
             np.column_stack: np_column_stack, np.copy: np_copy, np.mod: np_mod, np.less_equal: np_less_equal, np.greater: _np_cmp('>'), np.less: _np_cmp('<'),
             np.greater_equal: _np_cmp('>='), np.equal: _np_cmp('=='), np.not_equal: _np_cmp('!='), np.asarray: np_asarray, np.where: np_where,
             linalg.khatri_rao: khatri_rao}
+
+
+# ---------------------------------------------------------------------------------------------
+class SArrSeq(Sym):
+    """A python list of arrays of a common number of rows but individual widths (what gets column_stack'ed).
+    W: z3 Array Int->Int of widths (a 1-D array counts as width 1); el(k, i, j): entries of the k-th array."""
+
+    def __init__(self, length, W, rows, el):
+        self.len, self.W, self.rows, self.el = length, W, rows, el
+
+    def snapshot(self, memo):
+        return SArrSeq(self.len, self.W, self.rows, self.el)
+
+    def length(self, I):
+        return SInt(self.len)
+
+    def getattr(self, I, attr, node):
+        from .interp import BoundMethod
+        if attr == "rows":
+            return SInt(self.rows)
+        return BoundMethod(self, attr)
+
+    def method(self, I, name, args, kwargs, node):
+        if name == "append":
+            v = args[0]
+            if not isinstance(v, SArr):
+                raise Unsupported("append of a non-array")
+            w = v.n1 if v.ndim == 2 else (z3.IntVal(1) if v.ndim == 1 else z3.If(v.ndim == 2, v.n1, 1))
+            old, n, va = self.el, self.len, v.at
+            self.el = lambda k, i, j: z3.If(k == n, va(i, j), old(k, i, j))
+            self.W = z3.Store(self.W, n, w)
+            self.rows = z3.simplify(z3.If(n == 0, v.n0, self.rows))
+            self.len = z3.simplify(n + 1)
+            return None
+        if name == "width":       # specification helper: width of the k-th element
+            return SInt(z3.simplify(self.W[int_term(args[0])]))
+        raise Unsupported(f"list-of-arrays.{name}")
+
+
+class TArrSeq(Type):
+    name = "arrseq"
+
+    def fresh(self, ctx, hint):
+        n = ctx.fresh(hint + ".len", I_)
+        rows = ctx.fresh(hint + ".rows", I_)
+        W = ctx.fresh(hint + ".W", z3.ArraySort(I_, I_))
+        f = z3.Function(str(ctx.fresh(hint + ".el", I_)), I_, I_, I_, R)
+        ctx.assume(z3.And(n >= 0, rows >= 0))
+        return SArrSeq(n, W, rows, lambda k, i, j: f(k, i, j))
+
+    def coerce(self, v, ctx):
+        if isinstance(v, list) and not v:
+            return SArrSeq(z3.IntVal(0), z3.K(I_, z3.IntVal(0)), ctx.fresh("emptyrows", I_), lambda k, i, j: z3.RealVal(0))
+        return v
+
+    def invariant(self, v):
+        return z3.BoolVal(True)
+
+
+def width_of(a):
+    if a.ndim == 2:
+        return a.n1
+    if a.ndim == 1:
+        return z3.IntVal(1)
+    return z3.If(a.ndim == 2, a.n1, z3.IntVal(1))
+
+
+def seq_from_elements(length, j, elem_arr, rows=None):
+    """List of arrays given by the array `elem_arr` whose shape / entries are terms in the index variable j."""
+    W = z3.Lambda([j], width_of(elem_arr))
+    at = elem_arr.at
+
+    def el(k, i, c):
+        return z3.substitute(at(i, c), (j, k))
+    return SArrSeq(length, W, rows if rows is not None else z3.substitute(elem_arr.n0, (j, z3.IntVal(0))), el)
+
+
+def column_stack_seq(I, seq, node):
+    """np.column_stack of a list of arrays: widths add up (prefix sums), block k occupies columns
+    [psum(W, k), psum(W, k+1))."""
+    psum = I.reg.specs.get("psum")
+    if psum is None:
+        raise Unsupported("column_stack of a symbolic list needs the 'psum' specification function")
+    I.define_spec(psum)
+    n1 = psum.z3fn(seq.W, seq.len)
+    Rf = z3.Function(str(I.ctx.fresh("cs.el", I_)), I_, I_, R)
+    k, i, c = z3.Ints("cs_k cs_i cs_c")
+    I.ctx.assume(z3.ForAll([k, i, c], z3.Implies(z3.And(0 <= k, k < seq.len, 0 <= c, c < seq.W[k]),
+                                                 Rf(i, psum.z3fn(seq.W, k) + c) == seq.el(k, i, c))))
+    return SArr(2, seq.rows, n1, lambda a, b: Rf(a, b), "num", True)
